@@ -1010,6 +1010,8 @@ def z10(spec):
     nx, ny = spec.get("nx", 2), spec.get("ny", 7)
     md, mesh, s = _wingbox_surface(spec, nx, ny, struct_weight_relief=True, distributed_fuel_weight=True,
                                    exact_failure_constraint=bool(spec.get("exact", False)))
+    if spec.get("no_reserve"):
+        s["Wf_reserve"] = 0.0  # with fuel_mass = 0 the tanks are then exactly empty
     flight = _as_flight(alpha=2.0, tube=False)
     flight["fuel_mass"] = (10000.0, "kg")
     prob, coupled = _as_problem(spec, [s], flight, fuel_vol=True)
@@ -1489,6 +1491,7 @@ def variants():
         {"zoo": "Z9", "rotational": True},
         {"zoo": "Z9", "same_shape": True},
         {"zoo": "Z10"},
+        {"zoo": "Z10", "no_reserve": True},
         {"zoo": "Z11", "compressible": True},
         {"zoo": "Z11", "ground": True},
         {"zoo": "Z12", "wingbox": False},
